@@ -180,6 +180,42 @@ package fit
 //@@ that follow the consumed ones; byte k of the frame is instream(d.r, framepos(d)+k)
 //@ pred inv_content(d *decoder) := forall k in d.bytes.i..d.bytes.j :: d.bytes.buf[k] == instream(d.r, pos(d.r)-(d.bytes.j-k))
 
+//@@ C04: the running checksum equals the CRC fold over every stream byte delivered since the file started
+//@ spec rec sfold(r io.Reader, s uint16, lo int, hi int) uint16 := ite(hi <= lo, s, dyncrc16.UpdSpec(sfold(r, s, lo, hi-1), instream(r, hi-1)))
+//@ ghost func crcstart(d *decoder) int
+//@ pred inv_crc(d *decoder) := crcstart(d) <= pos(d.r) && dyncrc16.GhostSum(d.crc) == sfold(d.r, 0, crcstart(d), pos(d.r))
+//@@ folding in two steps is folding once (induction on hi)
+//@ lemma sfold_split_base(r io.Reader, s uint16, lo int, m int)
+//@   props C04
+//@   hyp lo <= m
+//@   concl sfold(r, sfold(r, s, lo, m), m, m) == sfold(r, s, lo, m)
+//@ lemma sfold_split_step(r io.Reader, s uint16, lo int, m int, hi int)
+//@   props C04
+//@   hyp lo <= m && m <= hi && hi < 1<<62
+//@   hyp sfold(r, sfold(r, s, lo, m), m, hi) == sfold(r, s, lo, hi)
+//@   concl sfold(r, sfold(r, s, lo, m), m, hi+1) == sfold(r, s, lo, hi+1)
+//@ lemma sfold_split(r io.Reader, s uint16, lo int, m int, hi int)
+//@   props C04
+//@   induction sfold_split_base sfold_split_step
+//@   hyp lo <= m && m <= hi && hi < 1<<62
+//@   concl sfold(r, sfold(r, s, lo, m), m, hi) == sfold(r, s, lo, hi)
+//@@ the checksum of a buffer that holds stream bytes is the fold over those stream bytes (induction on hi)
+//@ lemma fold_stream_base(r io.Reader, s uint16, a []byte, lo int, p int)
+//@   props C04
+//@   concl dyncrc16.Crcfold(s, a, lo, lo) == sfold(r, s, p, p)
+//@ lemma fold_stream_step(r io.Reader, s uint16, a []byte, lo int, hi int, p int)
+//@   props C04
+//@   hyp 0 <= lo && lo <= hi && hi < 1<<40 && 0 <= p && p < 1<<50
+//@   hyp forall k in lo..hi+1 :: a[k] == instream(r, p+(k-lo))
+//@   hyp dyncrc16.Crcfold(s, a, lo, hi) == sfold(r, s, p, p+(hi-lo))
+//@   concl dyncrc16.Crcfold(s, a, lo, hi+1) == sfold(r, s, p, p+(hi+1-lo))
+//@ lemma fold_stream(r io.Reader, s uint16, a []byte, lo int, hi int, p int)
+//@   props C04
+//@   induction fold_stream_base fold_stream_step
+//@   hyp 0 <= lo && lo <= hi && hi < 1<<40 && 0 <= p && p < 1<<50
+//@   hyp forall k in lo..hi :: a[k] == instream(r, p+(k-lo))
+//@   concl dyncrc16.Crcfold(s, a, lo, hi) == sfold(r, s, p, p+(hi-lo))
+
 //@ func noEOF(err error) (r error)
 //@   props C01 C11
 //@   ensures [not-clean-eof] !iserr(err, errReadSize) ==> !iserr(r, errReadSize)
@@ -198,6 +234,10 @@ package fit
 //@   ensures [framepos] framepos(d) == old(framepos(d))
 //@   ensures [monotone] pos(d.r) >= old(pos(d.r))
 //@   ensures [content] {C02 C04 C12 C13} inv_content(d)
+//@   requires [crc] {C04} inv_crc(d)
+//@   ensures [crc] {C04} inv_crc(d)
+//@   usepost {C04} fold_stream(d.r, old(dyncrc16.GhostSum(d.crc)), d.bytes.buf[0:d.bytes.j], 0, d.bytes.j, old(pos(d.r)))
+//@   usepost {C04} sfold_split(d.r, 0, crcstart(d), old(pos(d.r)), pos(d.r))
 //@   assigns d.bytes.i, d.bytes.j, d.bytes.buf[..], pos(d.r), dyncrc16.GhostSum(d.crc)
 
 //@ func (d *decoder) readByte() (b byte, err error)
@@ -211,11 +251,14 @@ package fit
 //@   ensures [framepos] framepos(d) == old(framepos(d))
 //@   ensures [monotone] pos(d.r) >= old(pos(d.r))
 //@   requires [content] {C02 C04 C12 C13} inv_content(d)
+//@   requires [crc] {C04} inv_crc(d)
 //@   ensures [content] {C02 C04 C12 C13} inv_content(d)
+//@   ensures [crc] {C04} inv_crc(d)
 //@   ensures [byte] {C02 C04 C12 C13} err == nil ==> b == instream(d.r, framepos(d)+old(d.bytes.n))
 //@   assigns d.bytes.i, d.bytes.j, d.bytes.n, d.bytes.buf[..], pos(d.r), dyncrc16.GhostSum(d.crc)
 //@   loop 0 invariant [inv] inv_bytes(d) && inv_io(d) && d.bytes.n == old(d.bytes.n) && d.bytes.limit == old(d.bytes.limit) && framepos(d) == old(framepos(d)) && pos(d.r) >= old(pos(d.r))
 //@   loop 0 invariant [content] {C02 C04 C12 C13} inv_content(d)
+//@   loop 0 invariant [crc] {C04} inv_crc(d)
 //@   loop 0 decreases ite(d.bytes.i == d.bytes.j, 1, 0)
 
 //@ func (d *decoder) skipByte() (err error)
@@ -229,10 +272,13 @@ package fit
 //@   ensures [framepos] framepos(d) == old(framepos(d))
 //@   ensures [monotone] pos(d.r) >= old(pos(d.r))
 //@   requires [content] {C02 C04 C12 C13} inv_content(d)
+//@   requires [crc] {C04} inv_crc(d)
 //@   ensures [content] {C02 C04 C12 C13} inv_content(d)
+//@   ensures [crc] {C04} inv_crc(d)
 //@   assigns d.bytes.i, d.bytes.j, d.bytes.n, d.bytes.buf[..], pos(d.r), dyncrc16.GhostSum(d.crc)
 //@   loop 0 invariant [inv] inv_bytes(d) && inv_io(d) && d.bytes.n == old(d.bytes.n) && d.bytes.limit == old(d.bytes.limit) && framepos(d) == old(framepos(d)) && pos(d.r) >= old(pos(d.r))
 //@   loop 0 invariant [content] {C02 C04 C12 C13} inv_content(d)
+//@   loop 0 invariant [crc] {C04} inv_crc(d)
 //@   loop 0 decreases ite(d.bytes.i == d.bytes.j, 1, 0)
 
 //@ func (d *decoder) readFull(p []byte) (err error)
@@ -247,9 +293,12 @@ package fit
 //@   ensures [framepos] framepos(d) == old(framepos(d))
 //@   ensures [monotone] pos(d.r) >= old(pos(d.r))
 //@   requires [content] {C02 C04 C12 C13} inv_content(d) && !samebase(p, d.bytes.buf[:])
+//@   requires [crc] {C04} inv_crc(d)
 //@   ensures [content] {C02 C04 C12 C13} inv_content(d)
+//@   ensures [crc] {C04} inv_crc(d)
 //@   ensures [bytes] {C02 C04 C12 C13} err == nil ==> forall k in 0..old(len(p)) :: old(p)[k] == instream(d.r, framepos(d)+old(d.bytes.n)+k)
 //@   loop 0 invariant [content] {C02 C04 C12 C13} inv_content(d)
+//@   loop 0 invariant [crc] {C04} inv_crc(d)
 //@   loop 0 invariant [copied] {C02 C04 C12 C13} forall k in 0..old(len(p))-len(p) :: old(p)[k] == instream(d.r, framepos(d)+old(d.bytes.n)+k)
 //@   assigns d.bytes.i, d.bytes.j, d.bytes.n, d.bytes.buf[..], p[..], pos(d.r), dyncrc16.GhostSum(d.crc)
 //@   loop 0 invariant [inv] inv_bytes(d) && inv_io(d) && d.bytes.limit == old(d.bytes.limit) && framepos(d) == old(framepos(d)) && pos(d.r) >= old(pos(d.r))
@@ -282,6 +331,10 @@ package fit
 //@ func (d *decoder) decodeHeader() (err error)
 //@   requires [sum0] {C04} dyncrc16.GhostSum(d.crc) == 0
 //@   ensures [hdr-ok] {C04} err == nil ==> hdrOK(d.h)
+//@   gassign {C04} crcstart(d) := old(pos(d.r))
+//@   ensures [crc] {C04} err == nil ==> inv_crc(d)
+//@   usepost {C04} fold_stream(d.r, dyncrc16.UpdSpec(0, d.h.Size), d.tmp[0:int(d.h.Size)-1], 0, int(d.h.Size)-1, old(pos(d.r))+1)
+//@   usepost {C04} sfold_split(d.r, 0, old(pos(d.r)), old(pos(d.r))+1, pos(d.r))
 //@   props C01 C10 C11 C04
 //@   requires inv_io(d)
 //@   ensures [inv] inv_io(d)
@@ -379,11 +432,15 @@ package fit
 //@ func (d *decoder) parseDefinitionMessage(recordHeader byte) (res *defmsg, err error)
 //@   slow content 90
 //@   requires [content] {C02 C04 C12 C13} inv_content(d)
+//@   requires [crc] {C04} inv_crc(d)
 //@   ensures [content] {C02 C04 C12 C13} inv_content(d)
+//@   ensures [crc] {C04} inv_crc(d)
 //@   requires [header] {C13} d.bytes.n >= 1 && recordHeader == lastByte(d)
 //@   gassign {C13} lastDef(d, int(recordHeader&0x0F)) := res when err == nil
 //@   loop 0 invariant [content] {C02 C04 C12 C13} inv_content(d)
+//@   loop 0 invariant [crc] {C04} inv_crc(d)
 //@   loop 1 invariant [content] {C02 C04 C12 C13} inv_content(d)
+//@   loop 1 invariant [crc] {C04} inv_crc(d)
 //@   props C01 C10 C11 C13
 //@   slow framepos 90
 //@   ensures [not-clean-eof] !iserr(err, errReadSize)
@@ -606,7 +663,9 @@ package fit
 //@   loop 2 invariant [wire] {C02} dsize+padding == 4 && -1 <= j && j < dsize && w2(d, dsize, padding, 0, j) && w2(d, dsize, padding, 1, j) && w2(d, dsize, padding, 2, j) && w2(d, dsize, padding, 3, j)
 //@   loop 3 invariant [wire] {C02} dsize+padding == 4 && w3(d, dsize, padding, 0, j, pad) && w3(d, dsize, padding, 1, j, pad) && w3(d, dsize, padding, 2, j, pad) && w3(d, dsize, padding, 3, j, pad)
 //@   requires [content] {C02 C04 C12 C13} inv_content(d)
+//@   requires [crc] {C04} inv_crc(d)
 //@   ensures [content] {C02 C04 C12 C13} inv_content(d)
+//@   ensures [crc] {C04} inv_crc(d)
 //@   requires [def-of-record] {C13} d.bytes.n >= 1 && dm == lastDef(d, int(recSlot(lastByte(d))))
 //@   use {C12} field_nums(dm.globalMsgNum)
 //@   use {C12} ts_field_distinct(dm.globalMsgNum)
@@ -615,7 +674,9 @@ package fit
 //@   loop 0 invariant [ts-kept] {C12} (forall k in 0..rangeindex+1 :: dm.fieldDefs[k].num != 253) ==> d.timestamp == old(d.timestamp) && d.lastTimeOffset == old(d.lastTimeOffset)
 //@   loop 0 invariant [ts-cell-kept] {C12} (forall k in 0..rangeindex+1 :: dm.fieldDefs[k].num != 253) && knownMsg && pfound(dm.globalMsgNum, 253) ==> rvtimeat(msgv, pf(dm.globalMsgNum, 253).sindex) == old(rvtimeat(msgv, pf(dm.globalMsgNum, 253).sindex))
 //@   loop 0 invariant [content] {C02 C04 C12 C13} inv_content(d)
+//@   loop 0 invariant [crc] {C04} inv_crc(d)
 //@   loop 4 invariant [content] {C02 C04 C12 C13} inv_content(d)
+//@   loop 4 invariant [crc] {C04} inv_crc(d)
 //@   props C01 C10 C11
 //@   ensures [not-clean-eof] !iserr(err, errReadSize)
 //@   locals rangeindex int, j int, dsize int, padding int, pad byte, dfield fieldDef
@@ -649,7 +710,9 @@ package fit
 
 //@ func (d *decoder) parseDataMessage(recordHeader byte, compressed bool) (r reflect.Value, err error)
 //@   requires [content] {C02 C04 C12 C13} inv_content(d)
+//@   requires [crc] {C04} inv_crc(d)
 //@   ensures [content] {C02 C04 C12 C13} inv_content(d)
+//@   ensures [crc] {C04} inv_crc(d)
 //@   requires [header] {C13} d.bytes.n >= 1 && recordHeader == lastByte(d) && compressed == (recordHeader&0x80 == 0x80)
 //@   requires [latest] {C13} defs_latest(d)
 //@   gassign {C03} nvalid(d) := nvalid(d)+1 when err == nil && rvvalid(r)
@@ -881,7 +944,9 @@ package fit
 //@   ensures [added] {C03} err == nil ==> nadded(d.file)-old(nadded(d.file)) == nvalid(d)-old(nvalid(d))
 //@   assigns {C03} nadded(d.file), nvalid(d)
 //@   requires [content] {C02 C04 C12 C13} inv_content(d)
+//@   requires [crc] {C04} inv_crc(d)
 //@   ensures [content] {C02 C04 C12 C13} inv_content(d)
+//@   ensures [crc] {C04} inv_crc(d)
 //@   requires [latest] {C13} defs_latest(d)
 //@   ensures [latest] {C13} err == nil ==> defs_latest(d)
 //@   assigns {C13} lastDef(d, *)
@@ -904,11 +969,14 @@ package fit
 //@   loop 0 invariant [added] {C03} nadded(d.file)-old(nadded(d.file)) == nvalid(d)-old(nvalid(d))
 //@   loop 0 dispatches {C03} parseDataMessage parseDefinitionMessage
 //@   requires [content] {C02 C04 C12 C13} inv_content(d)
+//@   requires [crc] {C04} inv_crc(d)
 //@   ensures [content] {C02 C04 C12 C13} inv_content(d)
+//@   ensures [crc] {C04} inv_crc(d)
 //@   requires [latest] {C13} defs_latest(d)
 //@   ensures [latest] {C13} err == nil ==> defs_latest(d)
 //@   assigns {C13} lastDef(d, *)
 //@   loop 0 invariant [content] {C02 C04 C12 C13} inv_content(d)
+//@   loop 0 invariant [crc] {C04} inv_crc(d)
 //@   loop 0 invariant [latest] {C13} defs_latest(d)
 //@   props C01 C10 C11 C13
 //@   ensures [not-clean-eof] !iserr(err, errReadSize)
@@ -936,6 +1004,7 @@ package fit
 //@@ everything read so far, continued over the two stored CRC bytes, is zero; the stored value is reported
 //@   ensures [sum] {C04} pos(d.r) == old(pos(d.r))+2 ==> dyncrc16.GhostSum(d.crc) == dyncrc16.UpdSpec(dyncrc16.UpdSpec(old(dyncrc16.GhostSum(d.crc)), instream(d.r, old(pos(d.r)))), instream(d.r, old(pos(d.r))+1))
 //@   ensures [sound] {C04} err == nil ==> dyncrc16.GhostSum(d.crc) == 0
+//@   ensures [crc] {C04} old(inv_crc(d)) && pos(d.r) == old(pos(d.r))+2 ==> inv_crc(d)
 //@   ensures [complete] {C04} pos(d.r) == old(pos(d.r))+2 && dyncrc16.GhostSum(d.crc) == 0 ==> err == nil
 //@   ensures [stored] {C04} pos(d.r) == old(pos(d.r))+2 ==> d.file.CRC == uint16(instream(d.r, old(pos(d.r))))|uint16(instream(d.r, old(pos(d.r))+1))<<8
 //@   assigns d.tmp[..], pos(d.r), dyncrc16.GhostSum(d.crc), d.file.CRC
@@ -990,6 +1059,9 @@ package fit
 //@   ensures [clean-eof-reported] cleanEnd(r, old(pos(r))) ==> iserr(err, errReadSize)
 //@   assigns allfields(d), pos(r)
 //@   assigns {C13} lastDef(d, *)
+//@@ C04: a file is accepted only if the CRC residue of all its bytes (header, data, stored CRC) is zero
+//@   ensures [residue] {C04} err == nil && !headerOnly && !fileIDOnly && !crcOnly ==> sfold(r, 0, old(pos(r)), pos(r)) == 0
+//@   assigns {C04} crcstart(d)
 
 //@ func CheckIntegrity(r io.Reader, headerOnly bool) (err error)
 //@   props C01 C10 C11
